@@ -22,6 +22,8 @@ class Cov(np.ndarray):
         if isinstance(values, cls):
             frame = values.frame
             values = values.base
+        elif isinstance(frame, str) and frame not in ("TNW", "QSW"):
+            frame = get_frame(frame)
 
         buf = np.array(values)
 
